@@ -212,9 +212,13 @@ func (f *Frame) inline(callee *ssa.Function, args []Val, bindings []Val, pos tok
 // havocAll forgets everything about the heap and globals.
 func (f *Frame) havocAll() {
 	c := f.c
+	cur := c.now(f.st)
 	c.nhavoc++
 	f.st.heaps = map[string]string{}
 	f.st.hid = c.nhavoc
+	n := c.fresh("now", "Int")
+	c.assume(fmt.Sprintf("(>= %s %s)", n, cur))
+	f.st.heaps[nowHeap] = n
 }
 
 func (f *Frame) havocCall(sig *types.Signature, args []Val, pos token.Pos, what string) Val {
@@ -243,6 +247,13 @@ func (f *Frame) freshVal(prefix string, t types.Type) Val {
 	n := c.fresh(prefix, c.sortOf(t))
 	if inv := c.typeInv(n, t); inv != "true" {
 		c.assume(inv)
+	}
+	// references handed to us exist by now
+	switch t.Underlying().(type) {
+	case *types.Pointer, *types.Map:
+		c.assume(c.bornBefore(f.st, n))
+	case *types.Slice:
+		c.assume(c.bornBefore(f.st, fmt.Sprintf("(sbase %s)", n)))
 	}
 	return Val{T: t, S: n}
 }
@@ -279,6 +290,7 @@ func (f *Frame) applyContract(fc *FuncContract, callee *ssa.Function, sig *types
 		f.oblige("pre", fmt.Sprintf("%s.%d", short, i), g, pos, r.Props, "precondition of "+short+": "+r.Text)
 	}
 	old := f.st.clone()
+	f.advanceClock()
 	// frame
 	for _, m := range fc.Modifies {
 		lv := env.lvalue(m)
@@ -301,6 +313,10 @@ func (f *Frame) applyContract(fc *FuncContract, callee *ssa.Function, sig *types
 	}
 	if len(vs) == 1 {
 		post.vars["result"] = vs[0]
+	}
+	for _, w := range fc.Witness {
+		// for the caller the witness is existentially quantified: a fresh constant
+		post.vars[w.Name] = f.freshVal("wit."+w.Name, post.typeByName(w.Type))
 	}
 	for _, en := range fc.Ensures {
 		c.assume(implies(f.reach, post.evalBool(en.Expr)))
